@@ -9,7 +9,7 @@
 //	select { case CH <- V: default: }        ->  trySend(CH, V)
 //	select { case CH <- V: case <-D: }       ->  sendOrDone(CH, V, D)
 //	CH <- V                                  ->  send(CH, V)
-//	a * b  (not both literals)               ->  mul(a, b)
+//	a * b, a / b, a << b, a >> b             ->  mul(a, b), div(a, b), shl(a, b), shr(a, b)   (not both literals)
 //	log.X(args…)                             ->  log.X()          (messages are not part of the behaviour)
 //
 // The arms of the outer switches are emitted as definitions of their own (`hs_a4`, `hs_a4_s0_a3`, …)
@@ -87,6 +87,46 @@ func isLit(e ast.Expr) bool {
 	return false
 }
 
+// arithmetic operators `gobody` has no constructor for, as calls (operands not both literals)
+var opCalls = map[token.Token]string{token.MUL: "mul", token.QUO: "div", token.SHL: "shl", token.SHR: "shr"}
+
+// rwExpr rebuilds an expression with those operators turned into calls.
+func rwExpr(e ast.Expr) ast.Expr {
+	switch x := e.(type) {
+	case *ast.BinaryExpr:
+		x.X, x.Y = rwExpr(x.X), rwExpr(x.Y)
+		if name, ok := opCalls[x.Op]; ok && !(isLit(x.X) && isLit(x.Y)) {
+			return &ast.CallExpr{Fun: ast.NewIdent(name), Args: []ast.Expr{x.X, x.Y}}
+		}
+	case *ast.ParenExpr:
+		x.X = rwExpr(x.X)
+		if _, ok := x.X.(*ast.CallExpr); ok {
+			return x.X
+		}
+	case *ast.UnaryExpr:
+		x.X = rwExpr(x.X)
+	case *ast.CallExpr:
+		for i := range x.Args {
+			x.Args[i] = rwExpr(x.Args[i])
+		}
+	case *ast.IndexExpr:
+		x.X, x.Index = rwExpr(x.X), rwExpr(x.Index)
+	case *ast.CompositeLit:
+		for i := range x.Elts {
+			x.Elts[i] = rwExpr(x.Elts[i])
+		}
+	case *ast.KeyValueExpr:
+		x.Value = rwExpr(x.Value)
+	}
+	return e
+}
+
+func rwExprs(es []ast.Expr) {
+	for i := range es {
+		es[i] = rwExpr(es[i])
+	}
+}
+
 func rewriteBody(b *ast.BlockStmt) {
 	ast.Inspect(b, func(n ast.Node) bool {
 		switch x := n.(type) {
@@ -94,14 +134,24 @@ func rewriteBody(b *ast.BlockStmt) {
 			rewriteList(x.List)
 		case *ast.CaseClause:
 			rewriteList(x.Body)
+			rwExprs(x.List)
 		case *ast.CommClause:
 			rewriteList(x.Body)
-		case *ast.CallExpr:
-			for i, a := range x.Args {
-				if be, ok := a.(*ast.BinaryExpr); ok && be.Op == token.MUL && !(isLit(be.X) && isLit(be.Y)) {
-					x.Args[i] = &ast.CallExpr{Fun: ast.NewIdent("mul"), Args: []ast.Expr{be.X, be.Y}}
-				}
+		case *ast.AssignStmt:
+			rwExprs(x.Lhs)
+			rwExprs(x.Rhs)
+		case *ast.ExprStmt:
+			x.X = rwExpr(x.X)
+		case *ast.ReturnStmt:
+			rwExprs(x.Results)
+		case *ast.IfStmt:
+			x.Cond = rwExpr(x.Cond)
+		case *ast.SwitchStmt:
+			if x.Tag != nil {
+				x.Tag = rwExpr(x.Tag)
 			}
+		case *ast.RangeStmt:
+			x.X = rwExpr(x.X)
 		}
 		return true
 	})
@@ -221,6 +271,7 @@ func genBody(c *ex.Ctx) {
 		{"vaxis.go", "Vaxis", "handleSequence", "hs", 2},
 		{"mouse.go", "", "parseMouseEvent", "pm", 0},
 		{"vaxis.go", "Vaxis", "Resize", "rz", 0},
+		{"vaxis.go", "", "parseColorReply", "pr", 0},
 	} {
 		f := c.Parse(fn.file)
 		if f == nil {
